@@ -769,6 +769,34 @@ func (x *Exec) callByContract(fr *Frame, pc *preparedCall, fc *FuncContract, nam
 		}
 	}
 	site := x.siteLabel(pc.e)
+	if x.cur != nil && x.cur.Contract == fc {
+		// a recursive call of the function under verification: its measure must have gone down
+		if fc.Decreases == nil {
+			x.oblige(fr, st, "variant", "recursion without a decreases clause@"+site, TFalse, pc.e)
+		} else if x.cur.Entry != nil {
+			ee := x.entrySpecEnv(x.cur)
+			v0 := x.asTerm(x.specEval(ee, fc.Decreases.Expr))
+			v1 := x.asTerm(x.specEval(env, fc.Decreases.Expr))
+			x.oblige(fr, st, "variant", "recursion@"+site, And(Le(IntLit(0), v0), Lt(v1, v0), Le(IntLit(0), v1)), pc.e)
+		}
+		x.Obls[len(x.Obls)-1].Tag = "C14"
+	}
+	if x.cur != nil && x.cur.Contract != fc && x.cur.Contract != nil && fr.depth == 0 {
+		// mutual recursion declared by "ghost mutual <callee>": the callee's measure is below the caller's
+		for _, g := range x.cur.Contract.Ghost {
+			if strings.HasPrefix(g, "mutual ") && strings.HasSuffix(name, "."+strings.TrimSpace(strings.TrimPrefix(g, "mutual "))) {
+				if fc.Decreases == nil || x.cur.Contract.Decreases == nil {
+					x.oblige(fr, st, "variant", "mutual recursion without decreases clauses@"+site, TFalse, pc.e)
+				} else {
+					ee := x.entrySpecEnv(x.cur)
+					v0 := x.asTerm(x.specEval(ee, x.cur.Contract.Decreases.Expr))
+					v1 := x.asTerm(x.specEval(env, fc.Decreases.Expr))
+					x.oblige(fr, st, "variant", "mutual recursion@"+site, And(Le(IntLit(0), v1), Lt(v1, v0)), pc.e)
+				}
+				x.Obls[len(x.Obls)-1].Tag = "C14"
+			}
+		}
+	}
 	x.callsiteRequires(fr, st, pc, name, sig)
 	x.holdsPre(fr, st, fc, shortName(name), site, pc)
 	x.callBlocks(fr, st, fc, shortName(name), site, pc.e)
